@@ -119,6 +119,21 @@ CHECKS = {
          "the load, after a failed load and after the drop of a successful one; a canary structure whose Drop reads its "
          "borrowed slice observes the drop order.",
          "6 C09"),
+ "C05": ("model checking + generated programs (derive grammar) + conformance replay",
+         "spec/Derive.tla enumerates the supported grammar of definitions (353 definitions, 1035 instantiations within the "
+         "bounds) with the predictions of the recipe operators; the generator writes them as Rust with #[derive(Epserde)]: "
+         "per-definition compilation outcome from cargo's JSON messages, real ε-copy type name / IS_ZERO_COPY / layout / hash "
+         "preimages against the predictions, and MC_RoundTrip over the grammar types (serializer, full-copy and ε-copy machines, "
+         "all invariants) with every behaviour replayed into the derived code in both modes.",
+         "6 C05"),
+ "C17": ("model checking + generated compile probes and run-time probes",
+         "spec/Derive.tla WrongZero derives from every valid zero-copy definition the wrongly declared ones (a field replaced by "
+         "vector / string / boxed slice / deep struct / &'static str / &'static [u8] / Option / raw pointer, repr(C) dropped, "
+         "zero_copy + deep_copy) with the layer that must reject each; each becomes a compile probe (with and without "
+         "derive(Copy)) that must not compile. MC_WrongZero runs the serializer machine on every context holding a "
+         "hand-declared zero-copy type with a pointer inside (invariants NoRawHandle, PanicsBeforeValue); each context is a "
+         "run-time probe: serialization must panic and the pointer bytes must not reach the writer.",
+         "6 C17"),
 }
 
 
